@@ -17,7 +17,7 @@ context and generator output of the stated class:
       BitUnpack(gamma1-1, gamma1) accepts every coefficient BitPack can have emitted.
   A4  both sides hash mu | w1Encode(.) of the same length and compare / emit lambda/4 bytes.
   A5  UseHint, Decompose / HighBits / LowBits and MakeHint equal their FIPS definitions on their whole
-      domain (C15 engine), so the FIPS lemma UseHint(MakeHint(z, r), r) = HighBits(r + z) applies.
+      domain (C15 engine; also CoeffFromThreeBytes, the kernel of ExpandA both sides run), so the FIPS lemma UseHint(MakeHint(z, r), r) = HighBits(r + z) applies.
   A6  key provenance: the public key derived from a private key carries that key's rho and its tr
       (copied, or re-hashed with SHAKE256 over all PK_LEN bytes) and expands A from that rho
       (rules D1-D4 of C11): the mu the verifier computes with a derived key is the signer's mu.
@@ -142,7 +142,7 @@ def main(tier):
                 ob(list(ret.get("enum", {}).keys()) == ["v0"], "A3:z-decoder-total", {"rule": "A3 BitUnpack(gamma1-1, gamma1) accepts every byte string (a+b+1 is a power of two), hence everything BitPack emitted",
                                                                                       "set": s, "variants": list(ret.get("enum", {}).keys())})
     c11.analyse(rep, ob, tier, prefix="A6:", with_use=False)
-    ksamples, kstats = c15.analyse(rep, ob, tier, {"decompose", "use_hint", "make_hint"}, prefix="A5:")
+    ksamples, kstats = c15.analyse(rep, ob, tier, {"decompose", "use_hint", "make_hint", "three_bytes"}, prefix="A5:")
     cov = {
         "obligations": cnt[0], "discharged": cnt[1],
         "checker_cmd": "python3 bin/check C01 (driver ai mode: M' absorb lists of both sides, definite-result classes, path facts of emit / accept, decoder classes; kernel exactness)",
